@@ -47,6 +47,108 @@ type boolExec struct {
 	fn    *ssa.Function
 	atoms atomFn
 	n     int
+	// inline: evaluate calls of small in-package bool predicates under the same
+	// atom assignment (a guard extracted into a helper such as c.exhausted(skip))
+	inline bool
+}
+
+// predicateUnder evaluates a small bool function under an atom assignment:
+// triTrue / triFalse when every path returns that value, else unknown.  Bool
+// parameters are bound to the values the caller passes.
+func predicateUnder(fn *ssa.Function, atoms atomFn, asg uint, bind map[*ssa.Parameter]tri, depth int) tri {
+	if fn == nil || fn.Blocks == nil || len(fn.Blocks) > 16 || depth > 2 {
+		return triUnknown
+	}
+	var eval func(v ssa.Value, path []*ssa.BasicBlock) tri
+	eval = func(v ssa.Value, path []*ssa.BasicBlock) tri {
+		if p, ok := v.(*ssa.Parameter); ok {
+			if t, ok := bind[p]; ok {
+				return t
+			}
+		}
+		if i, neg, ok := atoms(v); ok {
+			t := triFalse
+			if asg&(1<<uint(i)) != 0 {
+				t = triTrue
+			}
+			if neg {
+				return triNot(t)
+			}
+			return t
+		}
+		switch x := v.(type) {
+		case *ssa.Const:
+			if x.Value != nil && x.Value.Kind() == constant.Bool {
+				if constant.BoolVal(x.Value) {
+					return triTrue
+				}
+				return triFalse
+			}
+		case *ssa.UnOp:
+			if x.Op == token.NOT {
+				return triNot(eval(x.X, path))
+			}
+		case *ssa.Phi:
+			for i := len(path) - 1; i > 0; i-- {
+				if path[i] == x.Block() {
+					for k, pr := range x.Block().Preds {
+						if pr == path[i-1] {
+							return eval(x.Edges[k], path[:i])
+						}
+					}
+				}
+			}
+		}
+		return triUnknown
+	}
+	sawTrue, sawFalse, sawUnknown := false, false, false
+	var walk func(b *ssa.BasicBlock, path []*ssa.BasicBlock)
+	walk = func(b *ssa.BasicBlock, path []*ssa.BasicBlock) {
+		if len(path) > 32 {
+			sawUnknown = true
+			return
+		}
+		path = append(path, b)
+		switch last := b.Instrs[len(b.Instrs)-1].(type) {
+		case *ssa.Return:
+			if len(last.Results) != 1 {
+				sawUnknown = true
+				return
+			}
+			switch eval(last.Results[0], path) {
+			case triTrue:
+				sawTrue = true
+			case triFalse:
+				sawFalse = true
+			default:
+				sawUnknown = true
+			}
+		case *ssa.If:
+			switch eval(last.Cond, path) {
+			case triTrue:
+				walk(b.Succs[0], path)
+			case triFalse:
+				walk(b.Succs[1], path)
+			default:
+				walk(b.Succs[0], path)
+				walk(b.Succs[1], path)
+			}
+		default:
+			for _, s := range b.Succs {
+				walk(s, path)
+			}
+		}
+	}
+	walk(fn.Blocks[0], nil)
+	switch {
+	case sawUnknown || (sawTrue && sawFalse):
+		return triUnknown
+	case sawTrue:
+		return triTrue
+	case sawFalse:
+		return triFalse
+	}
+	return triUnknown
 }
 
 type beState struct {
@@ -66,6 +168,18 @@ func (x *boolExec) eval(v ssa.Value, asg uint, env map[*ssa.Phi]tri) tri {
 		return t
 	}
 	switch y := v.(type) {
+	case *ssa.Call:
+		if x.inline {
+			if sc := y.Call.StaticCallee(); sc != nil && sc.Pkg == x.fn.Pkg && sc.Blocks != nil && sc.Signature.Results().Len() == 1 && isBoolType(sc.Signature.Results().At(0).Type()) {
+				bind := map[*ssa.Parameter]tri{}
+				for i, p := range sc.Params {
+					if i < len(y.Call.Args) && isBoolType(p.Type()) {
+						bind[p] = x.eval(y.Call.Args[i], asg, env)
+					}
+				}
+				return predicateUnder(sc, x.atoms, asg, bind, 0)
+			}
+		}
 	case *ssa.Const:
 		if y.Value != nil && y.Value.Kind() == constant.Bool {
 			if constant.BoolVal(y.Value) {
